@@ -82,7 +82,18 @@ ATOMS = {
     'c_vuu': ('v = sum([u for u in p])', f'SAssign [{V}] (EComp [{U}] (EVar {P}) (EVar {U}))', True),
     'c_uuv': ('u = sum([v for u in p])', f'SAssign [{U}] (EComp [{U}] (EVar {P}) (EVar {V}))', True),
     'c_vvu': ('v = sum([u for v in p])', f'SAssign [{V}] (EComp [{V}] (EVar {P}) (EVar {U}))', True),
+    # a generator's iterable is checked BEFORE its own target is bound (several generators = nested EComp)
+    'c_own': ('u = sum([v for v in range(v)])', f'SAssign [{U}] (EComp [{V}] (EVar {V}) (EVar {V}))', False),
+    'c_two': ('u = sum([v for v in p for u in range(u)])',
+              f'SAssign [{U}] (EComp [{V}] (EVar {P}) (EComp [{U}] (EVar {U}) (EVar {V})))', True),
+    'c_tup': ('u = sum([u + v for (u, v) in [(1, v), (2, 3)]])',
+              f'SAssign [{U}] (EComp [{U}; {V}] (EOp EConst (EVar {V})) (EOp (EVar {U}) (EVar {V})))', False),
+    'c_dep': ('u = sum([u + v for u in p for v in range(u)])',
+              f'SAssign [{U}] (EComp [{U}] (EVar {P}) (EComp [{V}] (EVar {U}) (EOp (EVar {U}) (EVar {V}))))', True),
+    'c_late': ('u = sum([u + v for u in range(v) for v in p])',
+               f'SAssign [{U}] (EComp [{U}] (EVar {V}) (EComp [{V}] (EVar {P}) (EOp (EVar {U}) (EVar {V}))))', True),
 }
+COMPSET = ['u=0', 'v=0', 'ret u', 'ret v', 'c_own', 'c_two', 'c_tup', 'c_dep', 'c_late']
 ATOM_ID = {a: f'a{n}' for n, a in enumerate(ATOMS)}
 HEADER = HEADER.replace('ATOMDEFS', ''.join(f'Definition {ATOM_ID[a]} := {ATOMS[a][1]}.\n' for a in ATOMS))
 SWAP_ATOM = {'u=0': 'v=0', 'v=0': 'u=0', 'u=v': 'v=u', 'v=u': 'u=v', 'ret u': 'ret v', 'ret v': 'ret u',
@@ -161,6 +172,24 @@ def has_half_returning_if(b):
             if has_half_returning_if(s[2]):
                 return True
     return False
+
+
+def nest_family():
+    """If/else nests (two levels) whose arms return, define u, or fall through,
+    followed by a use of u - at top level and inside a `for` / `while` body.
+    What is defined after a join depends on which arms always return, at every
+    level; every accepted member is executed on all branch combinations."""
+    arm0 = [(('atom', 'ret 0'),), (('atom', 'u=0'),), (('atom', 'pass'),)]
+    arms1 = arm0 + [(('if', a, b),) for a in arm0 for b in arm0]
+    out = []
+    for a in arms1:
+        for b in arms1:
+            nest = ('if', a, b)
+            out.append((nest, ('atom', 'ret u')))
+            out.append((nest, ('atom', 'ret 0')))
+            out.append((('for', V, (nest, ('atom', 'v=u'))), ('atom', 'ret 0')))
+            out.append((('atom', 'v=0'), ('while', (nest, ('atom', 'v=u'))), ('atom', 'ret v')))
+    return out
 
 
 def swap(b):
@@ -415,11 +444,21 @@ def run(ck):
     full_n = 4 if thorough else 3
     if os.environ.get('C15_FULL_N'):      # debugging aid: a smaller bound
         full_n = int(os.environ['C15_FULL_N'])
-    for n in range(1, full_n + 1):
-        add_all(n, FULL, [None, U, V], True)
-    add_all(full_n + 1, SMALL, [V], False)
-    ck.log(f'{len(progs)} program texts (statements <= {full_n} over {len(FULL)} atoms and all compounds, '
-           f'{full_n + 1} statements over {len(SMALL)} atoms; depth <= 3)')
+    if os.environ.get('C15_ONLY') != 'families':      # debugging aid: skip the generic enumeration
+        for n in range(1, full_n + 1):
+            add_all(n, FULL, [None, U, V], True)
+        add_all(full_n + 1, SMALL, [], False)
+    n_generic = len(progs)
+    # comprehensions whose iterable mentions its own / a later / an earlier target, tuple targets
+    for n in range(1, 4):
+        add_all(n, COMPSET, [U], False)
+    n_comp = len(progs) - n_generic
+    for b in nest_family():
+        progs.append(b)
+        ck.count('programs-of-the-if-nest-family')
+    ck.log(f'{len(progs)} program texts: {n_generic} generic (statements <= {full_n} over {len(FULL)} atoms and all compounds, '
+           f'{full_n + 1} statements over {len(SMALL)} atoms; depth <= 3), {n_comp} over the comprehension atoms (<= 3 statements), '
+           f'{len(progs) - n_generic - n_comp} two-level if/else nests (also under for / while)')
 
     rendered = []
     for i, b in enumerate(progs):
